@@ -322,7 +322,7 @@ def sweep(ctx):
                 ctx.tally('prim_raised', f"{r['cls']}.{r['field']}:{r['raised']}")
             else:
                 pn += 1
-                ctx.count(('p', r['case'][1], r['node'], r['field'], r['vi']), True)
+                ctx.count(('p', tuple(r['case'][1:]), r['node'], r['field'], r['vi']), True)
                 ctx.tally('prim_field', f"{r['cls']}.{r['field']}")
                 if 'fail' in r:
                     ctx.fail(c01_targets.prim_signature(r), f"{r['cls']}.{r['field']} = {r['value']} on {r['src']!r} -> {r.get('after')!r}: {r['fail'][:200]}", r)
